@@ -4,6 +4,7 @@ import PercevalModel.Model.C16Mat
 import PercevalModel.Model.C16Heap
 import PercevalModel.Model.C16Rpc
 import PercevalModel.Model.C16Add
+import PercevalModel.Model.C16PS
 
 /-!
   Line protocol for C16.  One request = one session:
@@ -37,6 +38,13 @@ import PercevalModel.Model.C16Add
   output of an `execute` is `rstep`'s: `{"sent": {…}, "id": s}` | `{"err": cls, "msg": s|null, "posted": {…},
   "accepted": b}` (exception class of `create_job`) | the session machine's refusal.  The reply's `"http"` lists, per
   op, the HTTP requests the model says the client emits: `{"verb","url","auth","timeout","proxies","platform"}`.
+  Extension 6 (`Model/C16PS.lean`).  A request with `"part": "ps"` is not a session but one question about the
+  post-selection as a predicate:
+    {"part":"ps","expr":E|null,"m":m,"size":n,"heralds":[[mode,expected]…],"states":[[n0,n1,…]…]}
+    E = ["c",[modes],"=="|"!="|"<"|"<="|">"|">=",n] | ["not",E] | ["and"|"or"|"xor",[E…]]
+  answered `{"relabel":σ,"conds":[[modes]…]|null,"tstates":[…],"local":[b…],"remote":[b…],"denote":[b…]}`: the mode
+  relabelling of the conversion, the condition mode sets of `convertPost`, per local state `s` the corresponding
+  remote state, `evalTop x s`, `evalTop (convertPost p x) t` and the same through `Sym.denote`.
 -/
 
 open Lean PM.Proto PM.C16
@@ -378,4 +386,53 @@ def handle (j : Json) : Json :=
   | .ok v => v
   | .error e => errJson e
 
-def main : IO Unit := run handle
+/-! ### part "ps": the post-selection as a predicate -/
+
+def cmpOf (s : String) : Except String PSel.Cmp :=
+  match s with
+  | "==" => pure .eq | "!=" => pure .ne | "<" => pure .lt | "<=" => pure .le | ">" => pure .gt | ">=" => pure .ge
+  | _ => throw s!"bad comparison {s}"
+
+partial def psExprOf (j : Json) : Except String PSel.Expr := do
+  match j with
+  | .arr #[.str "c", ms, .str c, n] => pure (.cond (← natList ms) (← cmpOf c) (← n.getNat?))
+  | .arr #[.str "not", x] => pure (.not (← psExprOf x))
+  | .arr #[.str o, .arr xs] =>
+    let op ← match o with
+      | "and" => pure PSel.BOp.and | "or" => pure PSel.BOp.or | "xor" => pure PSel.BOp.xor
+      | _ => throw s!"bad operator {o}"
+    pure (.nary op (PSel.Args.ofList (← xs.toList.mapM psExprOf)))
+  | _ => throw "bad post-selection tree"
+
+def handlePs (j : Json) : Except String Json := do
+  let x ← optOf j "expr" psExprOf
+  let m ← natOf j "m"
+  let size ← natOf j "size"
+  let hs ← (← arrOf j "heralds").toList.mapM fun h => do
+    match h with
+    | .arr #[a, b] => pure ((← a.getNat?), (← b.getNat?))
+    | _ => throw "bad herald"
+  let states ← (← arrOf j "states").toList.mapM natList
+  let p : Exp := { m := m, size := size, heralds := hs, input := none, post := none, noise := none, filter := none,
+                   params := [], circ := ⟨0, []⟩, cparams := [] }
+  if ¬ p.WF then throw "precondition"
+  if states.any (fun s => s.length != size) then throw "precondition"
+  let σ := relabelOf p
+  let y := PSel.convertPost p x
+  let sym : Sym := ⟨0, normPerm σ⟩
+  let d := sym.denote (fun _ => x)
+  let ts := states.map (PSel.relabelState σ)
+  pure (Json.mkObj [("relabel", toJson σ),
+    ("conds", match y with | some e => toJson e.conds | none => .null),
+    ("tstates", toJson ts),
+    ("local", toJson (states.map (PSel.evalTop x))),
+    ("remote", toJson (ts.map (PSel.evalTop y))),
+    ("denote", toJson (ts.map (PSel.evalTop d)))])
+
+def handleAll (j : Json) : Json :=
+  match j.getObjVal? "part" with
+  | .ok (.str "ps") => match handlePs j with | .ok v => v | .error e => errJson e
+  | .ok _ => errJson "unknown part"
+  | .error _ => handle j
+
+def main : IO Unit := run handleAll
